@@ -245,9 +245,7 @@ func (d *DefaultClientDispatcher) messagePump() {
 			d.dispatchNextRequest()
 			rdy = false
 			// Set timer
-			if !d.timer.Stop() {
-				<-d.timer.C
-			}
+			d.stopTimer()
 			d.timer.Reset(d.timeout)
 		}
 	}
@@ -276,11 +274,23 @@ func (d *DefaultClientDispatcher) dispatchNextRequest() {
 func (d *DefaultClientDispatcher) Pause() {
 	d.mutex.Lock()
 	defer d.mutex.Unlock()
-	if !d.timer.Stop() {
-		<-d.timer.C
-	}
+	d.stopTimer()
 	d.timer.Reset(defaultTimeoutTick)
 	d.paused = true
+}
+
+// stopTimer stops the timeout timer and discards an expiry that nobody has taken yet.
+//
+// It never waits for one: the message pump may have taken the expiry already and be busy handling it
+// (it re-arms the timer only afterwards), and Pause and the pump may both find the timer expired, with
+// a single expiry to take. Waiting would block the caller for good, Pause with the mutex held.
+func (d *DefaultClientDispatcher) stopTimer() {
+	if !d.timer.Stop() {
+		select {
+		case <-d.timer.C:
+		default:
+		}
+	}
 }
 
 func (d *DefaultClientDispatcher) Resume() {
